@@ -54,7 +54,9 @@ impl World for EventWorld {
         &["C01", "C14", "C17", "C18"]
     }
     fn configs(&self, tier: Tier) -> Vec<Cfg> {
-        let k = if tier == Tier::Quick { 4 } else { 6 };
+        // six slots in both tiers: wake-all paths that batch or chunk need more than four waiters
+        let k = 6;
+        let _ = tier;
         let mut v = Vec::new();
         for flavour in [FL_LOCAL, FL_SYNC, FL_CHECKED] {
             for x in [0u8, 1] {
@@ -138,6 +140,7 @@ fn run_m<M: RawMutex>(cfg: &Cfg, ops: &[Op], run: &mut Run) {
         }
         run.set_step(i);
         run.steps += 1;
+        let op = &recycle(op, &slots, &[OP_CREATE], OP_POLL, OP_DROP);
         tls::clear_op_log();
         tls::alloc_reset();
         let pending_before = slots.iter().filter(|s| s.pending()).count();
